@@ -68,8 +68,12 @@ def gen_ghost(rng):
     return b'Gh0st' + rng.bytes(rng.below(24))
 
 
-def stun_attr(ty, val, length=None):
-    return struct.pack('>HH', ty, len(val) if length is None else length) + val
+def stun_attr(ty, val, length=None, pad=True):
+    """RFC 5389 TLV: the value is padded to a multiple of 4 bytes (padding not counted in the length)"""
+    v = struct.pack('>HH', ty, len(val) if length is None else length) + val
+    if pad and length is None and len(val) % 4:
+        v += bytes(4 - len(val) % 4)
+    return v
 
 
 def gen_stun(rng, fault=None, magic=None):
@@ -92,6 +96,16 @@ def gen_stun(rng, fault=None, magic=None):
         attrs = b''.join(stun_attr(0x8022, rng.bytes(4)) for _ in range(32 + rng.below(8)))
     elif kind == 4:
         attrs = stun_attr(0x8022, rng.bytes(252 + rng.below(8)))
+        if rng.chance(1, 2):
+            attrs += stun_attr(3, struct.pack('>I', rng.choice([2, 6, 0])))
+    elif kind == 5:
+        # many short attributes with odd lengths (padded), total >= 256 bytes
+        while len(attrs) < 256 + rng.below(64):
+            attrs += rng.choice([stun_attr(0x8022, rng.bytes(rng.below(9))), stun_attr(6, rng.bytes(1 + rng.below(7))),
+                                 stun_attr(3, struct.pack('>I', rng.choice([2, 0]))), stun_attr(1, rng.bytes(rng.choice([0, 3, 4, 8, 20]))),
+                                 stun_attr(3, rng.bytes(rng.below(4)))])
+    if fault == 'unpadded':
+        attrs += stun_attr(0x8022, rng.bytes(1 + 4 * rng.below(3) + rng.below(3)), pad=False) + stun_attr(3, struct.pack('>I', 2))
     if fault == 'lying':
         attrs += stun_attr(rng.choice([0x8022, 1, 3]), rng.bytes(rng.below(8)), length=rng.choice([0xffff, 0x0fff, 9, 100]))
         attrs += rng.bytes(rng.below(5))
@@ -266,7 +280,7 @@ def gen_smb2(rng, fault=None):
 APP_GENS = {
     'http': (gen_http, [None, None, None, 'verb', 'nosp', 'version', 'nocolon', 'unterminated', 'lower', 'twosp']),
     'ssh': (gen_ssh, [None, None, None, 'unterminated', 'version', 'magic']),
-    'stun': (gen_stun, [None, None, None, 'class', 'method', 'lying', 'short', 'family']),
+    'stun': (gen_stun, [None, None, None, None, 'class', 'method', 'lying', 'short', 'family', 'unpadded']),
     'dns': (gen_dns, [None, None, None, 'qr', 'sections', 'notina', 'truncated']),
     'smb1': (gen_smb1, [None, None, None, 'replyflag', 'command', 'nodialect', 'bytecount', 'seclen', 'truncated']),
     'smb2': (gen_smb2, [None, None, None, 'replyflag', 'command', 'nodialect', 'count', 'seclen', 'truncated']),
